@@ -959,8 +959,8 @@ def f7_witness():
 def correspond(tier, seed, model_ok):
     out = Outcome()
     r = Rng(seed)
-    n = 56 if tier == "quick" else 1500
-    ng = 24 if tier == "quick" else 400
+    n = 56 if tier == "quick" else 600
+    ng = 24 if tier == "quick" else 240
     cases = [f7_witness()] + gen_cases(r, tier, n) + gen_geom_cases(r, tier, ng)
     corpus = common.load_corpus(PROP)
     good = run_cases(corpus + cases, model_ok, out, "q")
